@@ -182,11 +182,24 @@ func skeleton(p *packages.Package, fd *ast.FuncDecl) []string {
 			toks = append(toks, "go")
 		case *ast.CallExpr:
 			name := calleeName(x.Fun)
-			toks = append(toks, "call "+name)
 			last := name
 			if i := strings.LastIndex(name, "."); i >= 0 {
 				last = name[i+1:]
 			}
+			// the arguments as written (which value goes where is part of what a call does); message texts of
+			// error constructors and long / composite arguments are left out
+			var as []string
+			for _, a := range x.Args {
+				r := exprStr(p.Fset, a)
+				if bl, ok := a.(*ast.BasicLit); ok && bl.Kind == token.STRING && (errCtors[last] || last == "Sprintf") {
+					r = "_"
+				}
+				if len(r) > 60 || strings.ContainsAny(r, "{\n") || strings.Contains(r, "func(") {
+					r = "_"
+				}
+				as = append(as, r)
+			}
+			toks = append(toks, "call "+name+"("+strings.Join(as, ", ")+")")
 			if errCtors[last] || last == "Sprintf" && len(x.Args) > 0 {
 				// message texts are not part of the skeleton
 				for _, a := range x.Args {
